@@ -20,7 +20,7 @@ JOBS = int(os.environ.get('VERIF_JOBS', '16'))
 CXX = os.environ.get('VERIF_CXX', 'g++')
 # R4: IEEE semantics, no contraction, no fast-math.
 BASEFLAGS = ['-std=c++17', '-ffp-contract=off', '-fno-fast-math', '-w', '-I' + INC,
-             '-I' + os.path.join(VERIF, 'engine'), '-I' + VERIF]
+             '-I' + os.path.join(VERIF, 'engine'), '-I' + os.path.join(VERIF, 'harness'), '-I' + VERIF]
 
 INFRA = {'Base', 'ConstitutiveModel', 'Dimensions', 'Dyad', 'PlanarVector', 'SymmetricDyad',
          'Vector', 'Unit', 'UnitSystem'}
@@ -136,6 +136,7 @@ class Ctx:
         self.deadline = self.t0 + float(os.environ.get('VERIF_DEADLINE_S', '2400'))
         self.capped = False
         self._stdin_cache = {}
+        self._replay_cache = {}
         import threading
         self._lock = threading.Lock()
 
@@ -163,7 +164,7 @@ class Ctx:
         deps = ''
         for f in sorted(glob.glob(os.path.join(VERIF, 'engine', '*.hpp'))):
             deps += sha(read(f))
-        key = sha(source_text, ' '.join(flags), opt, cxx, ' '.join(link), deps, extra_dep,
+        key = sha(source_text, ' '.join(flags), opt, cxx, ' '.join(link), deps, extra_dep, ' '.join(BASEFLAGS),
                   '1' if syntax_only else '0')[:20]
         out = self.path('%s-%s' % (name, key))
         errf = out + '.err'
@@ -172,7 +173,9 @@ class Ctx:
         if syntax_only and os.path.exists(out + '.ok'):
             return out + '.ok', ''
         if os.path.exists(errf):
-            return None, open(errf, errors='replace').read()
+            cached = open(errf, errors='replace').read()
+            if 'error' in cached:
+                return None, cached
         src = out + '.cpp'
         with open(src, 'w') as f:
             f.write(source_text)
@@ -233,22 +236,37 @@ class Ctx:
 
     def default_replay(self, key, det):
         """R6: re-execute the harness process that reported the case and require the identical
-        key to be reported again (harnesses are deterministic functions of tree, tier and seed)."""
+        key to be reported again (harnesses are deterministic functions of tree, tier and seed).
+        One re-execution per distinct harness command, shared by all its violations."""
         cmd = det.get('_cmd')
         if not cmd:
             return True
-        e = dict(os.environ)
-        e.update({'VERIF_SEED': str(self.seed), 'VERIF_TIER': self.tier, 'VERIF_ONLY_KEY': key})
-        p = subprocess.run(cmd, input=self._stdin_cache.get(tuple(cmd)), stdout=subprocess.PIPE,
-                           stderr=subprocess.PIPE, text=True, errors='replace', env=e)
-        for line in p.stdout.splitlines():
-            if line.startswith('VIOL ') and line[5:].partition('\t')[0] == key:
-                return True
-        return False
+        ck = tuple(cmd)
+        with self._lock:
+            keys = self._replay_cache.get(ck)
+        if keys is None:
+            e = dict(os.environ)
+            e.update({'VERIF_SEED': str(self.seed), 'VERIF_TIER': self.tier})
+            p = subprocess.run(cmd, input=self._stdin_cache.get(ck), stdout=subprocess.PIPE,
+                               stderr=subprocess.PIPE, text=True, errors='replace', env=e)
+            keys = set()
+            for line in p.stdout.splitlines():
+                if line.startswith('VIOL '):
+                    keys.add(line[5:].partition('\t')[0])
+            with self._lock:
+                self._replay_cache[ck] = keys
+        return key in keys
+
+    def prefetch_replays(self, dets):
+        cmds = {}
+        for d in dets:
+            if d.get('_cmd'):
+                cmds[tuple(d['_cmd'])] = d
+        self.pmap(lambda d: self.default_replay('', d), list(cmds.values()))
+
 
     def build_all(self, jobs):
-        """jobs: list of dicts(name, src, flags?, opt?) -> list of binaries; compile errors are
-        returned as (None, err)."""
+        """jobs: list of dicts(name, src, flags?, opt?) -> list of (binary or None, stderr)."""
         def one(j):
             return self.compile(j['name'], j['src'], j.get('flags', ()), j.get('opt', '-O1'),
                                 j.get('cxx'), j.get('link', ('-lquadmath',)),
@@ -289,6 +307,8 @@ def finish(ctx, level, rule, evaluations, distinct_nontrivial, exhaustive, cover
         else:
             new.append((key, det))
     confirmed = []
+    if replay_fn is None:
+        ctx.prefetch_replays([d for _, d in new])
     for key, det in new:
         ok = True
         fn = replay_fn or ctx.default_replay
